@@ -99,9 +99,13 @@ func (p *Provider) start(ctx context.Context, ammoFile afero.File) error {
 	return nil
 }
 
+// ammoJSON keeps the numbers of a payload as written (json.Number): decoding them into float64 and
+// marshalling them back would silently round int64/uint64 values above 2^53.
+var ammoJSON = jsoniter.Config{EscapeHTML: true, UseNumber: true}.Froze()
+
 func decodeAmmo(jsonDoc []byte, am *ammo.Ammo) (*ammo.Ammo, error) {
 	var ammo ammo.Ammo
-	err := jsoniter.Unmarshal(jsonDoc, &ammo)
+	err := ammoJSON.Unmarshal(jsonDoc, &ammo)
 	if err != nil {
 		return am, errors.WithStack(err)
 	}
